@@ -11,9 +11,39 @@ GROUPS = [
     dict(name="chksum_accum_bounded", harness=H, enforce="chksum_accum", defines=["SSW_NO_MEM_STUBS", "S3_CHK_BOUND"], allow_no_body=NB + ["ssw_memcpy", "ssw_memmove"], unwind=9, min_postconditions=1,
          bounded="n_el <= 6 elements (loop contracts on these loops crash goto-instrument: the accumulator is a parameter)"),
     dict(name="s3file_get_1d_inl", harness=H, entry="h_s3file_get_1d", enforce="s3file_get_1d", replace=["ssw_memcpy", "chksum_accum"], loop_contracts=True, loops=["swap_buf.u16", "swap_buf.u32", "swap_buf.u64"], defines=MEM + ["S3_MAXLEN=64"], allow_no_body=NB + ["ssw_memmove"], tiers=("probe",)),
-    dict(name="s3file_get_1d", harness=H, enforce="s3file_get_1d", replace=["s3file_get"], defines=MEM + ["S3_MAXLEN=64"],
+    dict(name="s3file_get_1d", tiers=("probe",), harness=H, enforce="s3file_get_1d", replace=["s3file_get"], defines=MEM + ["S3_MAXLEN=64"],
          bounded="file length <= 64 bytes (counts read from the file are arbitrary 32-bit values; symbolic-size allocations beyond that did not finish)", allow_no_body=NB + ["ssw_memcpy", "ssw_memmove"], min_postconditions=3),
     dict(name="s3file_get_2d", harness=H, enforce="s3file_get_2d", replace=["s3file_get", "s3file_get_1d"], defines=MEM, allow_no_body=NB + ["ssw_memcpy", "ssw_memmove"], min_postconditions=2),
     dict(name="s3file_get_3d", harness=H, enforce="s3file_get_3d", replace=["s3file_get", "s3file_get_1d"], defines=MEM, allow_no_body=NB + ["ssw_memcpy", "ssw_memmove"], min_postconditions=2),
     dict(name="s3file_verify_chksum", harness=H, enforce="s3file_verify_chksum", replace=["s3file_get"], defines=MEM, allow_no_body=NB + ["ssw_memcpy", "ssw_memmove"], min_postconditions=3),
+    dict(name="s3file_file_get_1d", harness=H, entry="r_s3file_arrays", defines=["S3_ELSZ=4", "FLEN=12", "MODE=0"], allow_no_body=NB, unwind=14,
+         replay={"name": "s3file_file_replay", "harness": H, "entry": "r_s3file_arrays", "defines": ["S3_ELSZ=4", "FLEN=12", "MODE=0"], "native_replay": True, "canary": False,
+                 "allow_no_body": NB, "unwind": 14, "native_sources": "ALL", "native_exclude": ["s3file.c"]},
+         bounded="whole files of <= 12 symbolic bytes through the real get_1d (element size 4, both byte orders, checksum on/off)"),
+    dict(name="s3file_file_get_2d", harness=H, entry="r_s3file_arrays", defines=["S3_ELSZ=4", "FLEN=16", "MODE=1"], allow_no_body=NB, unwind=18,
+         replay={"name": "s3file_file_replay", "harness": H, "entry": "r_s3file_arrays", "defines": ["S3_ELSZ=4", "FLEN=16", "MODE=1"], "native_replay": True, "canary": False,
+                 "allow_no_body": NB, "unwind": 18, "native_sources": "ALL", "native_exclude": ["s3file.c"]},
+         bounded="whole files of <= 16 symbolic bytes through the real get_2d (element size 4, both byte orders, checksum on/off)"),
+    dict(name="s3file_file_get_3d", harness=H, entry="r_s3file_arrays", defines=["S3_ELSZ=4", "FLEN=20", "MODE=2"], allow_no_body=NB, unwind=22,
+         replay={"name": "s3file_file_replay", "harness": H, "entry": "r_s3file_arrays", "defines": ["S3_ELSZ=4", "FLEN=20", "MODE=2"], "native_replay": True, "canary": False,
+                 "allow_no_body": NB, "unwind": 22, "native_sources": "ALL", "native_exclude": ["s3file.c"]},
+         bounded="whole files of <= 20 symbolic bytes through the real get_3d (element size 4, both byte orders, checksum on/off)"),
+    dict(name="s3file_file_parse_header", harness=H, entry="r_s3file_arrays", defines=["S3_ELSZ=4", "FLEN=8", "MODE=3"], allow_no_body=NB, unwind=10,
+         replay={"name": "s3file_file_replay", "harness": H, "entry": "r_s3file_arrays", "defines": ["S3_ELSZ=4", "FLEN=8", "MODE=3"], "native_replay": True, "canary": False,
+                 "allow_no_body": NB, "unwind": 10, "native_sources": "ALL", "native_exclude": ["s3file.c"]},
+         bounded="whole files of <= 8 symbolic bytes through the real parse_header (element size 4, both byte orders, checksum on/off)"),
 ]
+ASSUMPTIONS = [
+    "file view: a buffer of verif_flen <= 1 000 000 bytes; element size is a compile-time constant per run (4 in the quick tier)",
+    "s3file_get at call sites: the destination is a writable block of the requested size (w_ok) and is distinct from the file (locals / fresh allocations: by inspection)",
+    "memcpy replaced by a bounds-only contract in the contract groups (requires asserted at the call site); byte loops in the bounded whole-file groups",
+    "chksum_accum: bounds-only assumed contract at call sites, enforced separately for n_el <= 6 (its loops cannot carry loop contracts: goto-instrument crashes when the accumulator parameter is in the assigns clause)",
+    "allocation stubs carry the obligation 'never allocate more elements than the file has bytes'; row-pointer builders carry 'd1*d2(*d3)*size <= size of the data block'",
+    "s3file_get_1d's contract is used by the get_2d/get_3d contract groups but its own DFCC proof did not finish (tier 'probe'); it is covered by the bounded whole-file group instead",
+]
+HAND_LEMMAS = []
+NOT_COVERED = ["the loaders above the s3file layer: bin_mdef_read_s3file, tmat_init_s3file, gauden/senone/ptm/s2_semi loaders, lda_read, acmod_load_am (seeded changes C17_A and C17_B live there); sub-agents reported further baseline defects there (tmat double free on bad checksum, sendump truncation freeing a pointer into the file buffer, NULL ciname in bin_mdef_free, unchecked tmat_init result) that are NOT decided by any check here", "mmap path", "the 'intact model loads afterwards' clause"]
+CLAIM = dict(
+    text="The s3file layer every model loader reads through is under contract: s3file_nextline/nextword (loop invariants, termination) and s3file_get (with byte-swap loops) never read outside the file for files of any length up to 1 MB; s3file_get_2d/_3d/verify_chksum are proved against the callee contracts to report failure through the return value, never reaching exit(), never allocating more than the file could fill and never building row pointers outside the data block. The whole chain (real get/get_1d/get_2d/get_3d/parse_header, byte-level copies) is additionally checked on every file of <= 12..20 symbolic bytes (bounded), which found two further genuine defects. The loaders above this layer are NOT covered.",
+    note="s3file layer only; loaders (mdef, tmat, gauden, senone, sendump, lda) not under contract; get_1d by bounded check only; three genuine defects fixed; trusted: CBMC 6.11",
+    technique="CBMC function + loop contracts (goto-instrument --dfcc) with pointer-offset invariants; bounded whole-file CBMC runs with unwinding assertions as stand-in for get_1d/parse_header; counterexamples replayed natively")
